@@ -186,6 +186,7 @@ func readerEntry(req isolate.Req) (resp isolate.Resp) {
 			if info, err := rd.Info(); err == nil {
 				resp.Flags |= 2
 				_ = info.CanReadMessagesUsingIndex()
+				_ = info.ChannelCounts()
 			} else {
 				texts = append(texts, "Info: "+errText(err))
 			}
